@@ -10,15 +10,22 @@ ev  == Rec[l]
 Expected(e) == LET r == ParseChars(e.chars) IN
                IF e.kind = "term" /\ r.ok /\ ~IsTerm(r.ast) THEN Fail ELSE r
 
-Agrees(e) == LET r == Expected(e) IN
+(* a term of a language with NAMED payload operators, built through the API and printed by the implementation: its text *)
+(* parses (as a term and as a pattern) and gives back the same value - the specification has no grammar for it, only    *)
+(* the round-trip law                                                                                                  *)
+PayloadAgrees(e) == ~e.panic /\ e.ok /\ e.roundtrip
+
+Agrees(e) == IF e.kind = "payload-term" THEN PayloadAgrees(e) ELSE
+             LET r == Expected(e) IN
              /\ ~e.panic
              /\ e.ok = r.ok
              /\ (r.ok => e.ast = r.ast /\ e.roundtrip)
 
 TraceInit == l = 1
 TraceNext == /\ l <= Len(Rec) /\ l' = l + 1
-             /\ (IF Agrees(ev) THEN TRUE ELSE PrintT("PARSEBAD " \o ToJson([i |-> l, panic |-> ev.panic, impl_ok |-> ev.ok, spec_ok |-> Expected(ev).ok,
-                                                               spec_ast |-> Expected(ev).ast])))
+             /\ (IF Agrees(ev) THEN TRUE ELSE PrintT("PARSEBAD " \o ToJson([i |-> l, panic |-> ev.panic, impl_ok |-> ev.ok,
+                                                               spec_ok |-> IF ev.kind = "payload-term" THEN TRUE ELSE Expected(ev).ok,
+                                                               spec_ast |-> IF ev.kind = "payload-term" THEN NoAst ELSE Expected(ev).ast])))
 TraceSpec == TraceInit /\ [][TraceNext]_l
 TraceAccepted == TLCGet("stats").diameter - 1 = Len(Rec)
 =============================================================================
